@@ -155,7 +155,11 @@ def stepLine (s : St) (j : Json) : St × Json :=
     match committee? j with
     | some c =>
       let n := c.n
-      let cfg : RCfg := { c := c, leader := fun v => if n = 0 then 0 else v % n, maxPayload := (getNat j "max_payload").getD 1000 }
+      -- the leader of a view is a parameter of the replica model (leader election is C11): when the case uses a schedule
+      -- other than round-robin over everybody, the table of the real `view_leader` for the first views travels with the op
+      let table : Array Nat := ((getNatList j "leader_table").getD []).toArray
+      let cfg : RCfg := { c := c, leader := fun v => if h : v < table.size then table[v] else (if n = 0 then 0 else v % n),
+                          maxPayload := (getNat j "max_payload").getD 1000 }
       let r := Replica.start none
       ({ cfg := cfg, r := r, durable := none, notified := none }, Json.mkObj [("class", "init"), ("snap", snapJ c r)])
     | none => (s, badOp)
